@@ -929,6 +929,13 @@ Proof.
   destruct (eq_dec d0 d) as [->|]; [|reflexivity]. rewrite Ha. simpl. f_equal. exact (Hk _ _ _ Hf).
 Qed.
 
+Lemma with_supply_quiet s d f s' : keeps_el f -> with_supply s d f = Some s' -> Quiet s s' /\ st_win s' = st_win s.
+Proof.
+  intros Hk H. destruct (with_supply_Some _ _ _ _ H) as (a & a' & Ha & Hf & ->).
+  split; [|reflexivity]. split; [|split; reflexivity]. intros d0. unfold elmap. sproj. rewrite get_set.
+  destruct (eq_dec d0 d) as [->|]; [|reflexivity]. rewrite Ha. simpl. f_equal. exact (Hk _ _ _ Hf).
+Qed.
+
 Definition QuietW (s s' : state) : Prop := Quiet s s' /\ st_win s' = st_win s.
 Lemma QuietW_refl s : QuietW s s. Proof. split; [apply Quiet_refl|reflexivity]. Qed.
 Lemma QuietW_trans s1 s2 s3 : QuietW s1 s2 -> QuietW s2 s3 -> QuietW s1 s3.
@@ -961,10 +968,10 @@ Lemma refund_quiet s id c : QuietW s (refund s id c).
 Proof.
   unfold refund. cbv zeta. destruct (c_transfer c).
   - destruct (c_amount c) as [|[d x] cs]; [apply QuietW_refl|]. destruct (c_dir c); [apply QuietW_refl| |].
-    + destruct (with_asset s d (dec_incoming x)) as [s1|] eqn:H1; [|apply QuietW_refl].
-      apply (QuietW_trans _ s1); [exact (with_asset_quiet _ _ _ _ (ke_dec_incoming x) H1)|apply QuietW_same; reflexivity].
-    + destruct (with_asset s d (dec_outgoing x)) as [s1|] eqn:H1; [|apply QuietW_refl].
-      apply (QuietW_trans _ s1); [exact (with_asset_quiet _ _ _ _ (ke_dec_outgoing x) H1)|].
+    + destruct (with_supply s d (dec_incoming x)) as [s1|] eqn:H1; [|apply QuietW_refl].
+      apply (QuietW_trans _ s1); [exact (with_supply_quiet _ _ _ _ (ke_dec_incoming x) H1)|apply QuietW_same; reflexivity].
+    + destruct (with_supply s d (dec_outgoing x)) as [s1|] eqn:H1; [|apply QuietW_refl].
+      apply (QuietW_trans _ s1); [exact (with_supply_quiet _ _ _ _ (ke_dec_outgoing x) H1)|].
       destruct (pay_out s1 id (c_sender c) ((d, x) :: cs)) as [s2|] eqn:H2; [|apply QuietW_refl].
       apply (QuietW_trans _ s2); [exact (pay_out_quiet _ _ _ _ _ H2)|apply QuietW_same; reflexivity].
   - destruct (pay_out s id (c_sender c) (c_amount c)) as [s1|] eqn:H1; [|apply QuietW_refl].
@@ -997,16 +1004,16 @@ Proof.
     split.
     + apply (Quiet_trans _ s1); [|apply Quiet_same; reflexivity].
       unfold claim_htlt in Hb. destruct (c_amount c) as [|[d x] cs]; [discriminate|]. destruct (c_dir c); [discriminate| |].
-      * destruct (with_asset s d (dec_incoming x)) as [s2|] eqn:H1; [|discriminate].
+      * destruct (with_supply s d (dec_incoming x)) as [s2|] eqn:H1; [|discriminate].
         destruct (with_asset s2 d (inc_current x)) as [s3|] eqn:H2; [|discriminate].
-        apply (Quiet_trans _ s2); [exact (proj1 (with_asset_quiet _ _ _ _ (ke_dec_incoming x) H1))|].
+        apply (Quiet_trans _ s2); [exact (proj1 (with_supply_quiet _ _ _ _ (ke_dec_incoming x) H1))|].
         apply (Quiet_trans _ s3); [exact (proj1 (with_asset_quiet _ _ _ _ (ke_inc_current x) H2))|].
         apply (Quiet_trans _ (add_win (mint s3 id ((d, x) :: cs)) d x)); [apply Quiet_same; reflexivity|].
         exact (proj1 (pay_out_quiet _ _ _ _ _ Hb)).
-      * destruct (with_asset s d (dec_outgoing x)) as [s2|] eqn:H1; [|discriminate].
-        destruct (with_asset s2 d (dec_current x)) as [s3|] eqn:H2; [|discriminate].
-        apply (Quiet_trans _ s2); [exact (proj1 (with_asset_quiet _ _ _ _ (ke_dec_outgoing x) H1))|].
-        apply (Quiet_trans _ s3); [exact (proj1 (with_asset_quiet _ _ _ _ (ke_dec_current x) H2))|].
+      * destruct (with_supply s d (dec_outgoing x)) as [s2|] eqn:H1; [|discriminate].
+        destruct (with_supply s2 d (dec_current x)) as [s3|] eqn:H2; [|discriminate].
+        apply (Quiet_trans _ s2); [exact (proj1 (with_supply_quiet _ _ _ _ (ke_dec_outgoing x) H1))|].
+        apply (Quiet_trans _ s3); [exact (proj1 (with_supply_quiet _ _ _ _ (ke_dec_current x) H2))|].
         exact (proj1 (burn_quiet _ _ _ _ Hb)).
     + exists c. split; [reflexivity|]. rewrite Htr. unfold dequeue, set_contract. sproj.
       destruct (c_amount c) as [|[d x] cs] eqn:Ham; [unfold claim_htlt in Hb; rewrite Ham in Hb; discriminate|].
@@ -1170,10 +1177,10 @@ Proof.
   destruct (get id (st_contracts s2)) as [c|]; [|reflexivity].
   unfold refund. cbv zeta. destruct (c_transfer c).
   - destruct (c_amount c) as [|[d x] cs]; [reflexivity|]. destruct (c_dir c); [reflexivity| |].
-    + destruct (with_asset s2 d (dec_incoming x)) as [s3|] eqn:Hw; [|reflexivity].
-      destruct (with_asset_Some _ _ _ _ Hw) as (? & ? & ? & _ & _ & _ & ->). reflexivity.
-    + destruct (with_asset s2 d (dec_outgoing x)) as [s3|] eqn:Hw; [|reflexivity].
-      destruct (with_asset_Some _ _ _ _ Hw) as (? & ? & ? & _ & _ & _ & ->). unfold pay_out.
+    + destruct (with_supply s2 d (dec_incoming x)) as [s3|] eqn:Hw; [|reflexivity].
+      destruct (with_supply_Some _ _ _ _ Hw) as (? & ? & _ & _ & ->). reflexivity.
+    + destruct (with_supply s2 d (dec_outgoing x)) as [s3|] eqn:Hw; [|reflexivity].
+      destruct (with_supply_Some _ _ _ _ Hw) as (? & ? & _ & _ & ->). unfold pay_out.
       destruct (blocked (c_sender c)); [reflexivity|]. sproj. destruct (send_coins _ _ _ _); reflexivity.
   - unfold pay_out. destruct (blocked (c_sender c)); [reflexivity|]. destruct (send_coins _ _ _ _); reflexivity.
 Qed.
